@@ -3,7 +3,7 @@
    law is used, so they hold verbatim for Z, Q, R and for IEEE floats with a fixed summation order);
    the centring lemmas hold for every Op satisfying ring_theory. *)
 From Coq Require Import List Arith ZArith Ring Permutation Reals Lia.
-From TLV Require Import Base.Shape Base.PyList Base.Tensor Base.Ops Model.Base Model.Regress Proofs.RegressProofs Proofs.RegressProofsR.
+From TLV Require Import Base.Shape Base.PyList Base.Tensor Base.Ops Model.Base Model.Regress Proofs.RegressProofs Proofs.RegressProofsPlsr Proofs.RegressProofsR.
 Import ListNotations.
 
 
@@ -124,6 +124,107 @@ Theorem C19_plsr_shift_invariance : forall
 Proof. exact plsr_shift_invariance. Qed.
 Print Assumptions C19_plsr_shift_invariance.
 
+(* ---- CP_PLSR.fit with the inner power iteration modelled (fit_cp): sqrt, the SVD initialisation (a function of Z),
+   the least-squares solver (a function of the normal-equation data) and the tolerance are arbitrary ---- *)
+
+(* every non-sample loading vector and every Y loading vector is the result of a normalisation v / norm(v) *)
+Theorem C19_plsr_loadings_normalized : forall (F : Type) (Op : fops F) (sqrtF : F -> F)
+  (init : tensor F -> list (tensor F)) (ne_solve : list (list F) -> list F -> list F) (tol : F)
+  (n_iter ncomp : nat) (X Y : tensor F) (c : comp),
+  In c (comps (fit_cp Op sqrtF init ne_solve tol n_iter ncomp X Y)) ->
+  Forall (is_normalized Op sqrtF) (c_load c) /\ is_normalized Op sqrtF (c_yload c).
+Proof. exact @plsr_loadings_normalized. Qed.
+Print Assumptions C19_plsr_loadings_normalized.
+
+(* over R: a normalised non-zero vector has unit norm; hence every loading has unit norm unless it is the
+   (degenerate) normalisation of the zero vector, where the implementation produces NaN *)
+Theorem C19_normalize_unit : forall v : tensor R, (0 < sumsq Rops v)%R -> sumsq Rops (normalize Rops sqrt v) = 1%R.
+Proof. exact normalize_unit_pos. Qed.
+Print Assumptions C19_normalize_unit.
+
+Theorem C19_plsr_unit_norm : forall (init : tensor R -> list (tensor R)) (ne_solve : list (list R) -> list R -> list R)
+  (tol : R) (n_iter ncomp : nat) (X Y : tensor R) (c : comp),
+  In c (comps (fit_cp Rops sqrt init ne_solve tol n_iter ncomp X Y)) ->
+  (forall l : tensor R, In l (c_load c) -> sumsq Rops l <> 0%R -> sumsq Rops l = 1%R) /\
+  (sumsq Rops (c_yload c) <> 0%R -> sumsq Rops (c_yload c) = 1%R).
+Proof. exact plsr_unit_norm. Qed.
+Print Assumptions C19_plsr_unit_norm.
+
+(* adding a constant tensor to every sample of X and a constant vector to every row of Y: same loadings, scores,
+   coefficients; predictions of shifted new data = predictions + offset (instance of C19_plsr_shift_invariance) *)
+Corollary C19_plsr_cp_shift_invariance : forall (init : tensor R -> list (tensor R)) (ne_solve : list (list R) -> list R -> list R)
+  (tol : R) (n_iter ncomp : nat) (X Y c d : tensor R) (n : nat) (sx : list nat) (m : nat),
+  shape X = n :: sx -> shape Y = [n; m] -> 0 < n ->
+  let p := fit_cp Rops sqrt init ne_solve tol n_iter ncomp X Y in
+  let p' := fit_cp Rops sqrt init ne_solve tol n_iter ncomp (shift Rops X c) (shift Rops Y d) in
+  comps p' = comps p /\ loadings p' = loadings p /\ fitted_scores p' = fitted_scores p /\
+  forall Xn i o, sshape Xn = sx -> i < nsamp Xn -> o < m ->
+    tget Rops (fit_predict Rops p' (shift Rops Xn c)) [i; o] = (tget Rops (fit_predict Rops p Xn) [i; o] + tget Rops d [o])%R.
+Proof. exact plsr_cp_shift_invariance. Qed.
+Print Assumptions C19_plsr_cp_shift_invariance.
+
+(* re-ordering the samples of X and Y consistently: means, loadings (X and Y side), coefficients and predictions
+   are unchanged, X and Y scores are re-ordered in the same way -- for the whole fit, every number of passes and
+   components, every sample order *)
+Theorem C19_plsr_perm_equivariance : forall (F : Type) (Op : fops F), is_ring Op ->
+  forall (sqrtF : F -> F) (init : tensor F -> list (tensor F)) (ne_solve : list (list F) -> list F -> list F) (tol : F)
+    (p : list nat) (n : nat), Permutation p (seq 0 n) ->
+  forall (n_iter ncomp : nat) (X Y : tensor F) (sx : list nat) (m : nat),
+  shape X = n :: sx -> shape Y = [n; m] -> 0 < m ->
+  let r := fit_cp Op sqrtF init ne_solve tol n_iter ncomp X Y in
+  let r' := fit_cp Op sqrtF init ne_solve tol n_iter ncomp (perm_samples Op p X) (perm_samples Op p Y) in
+  X_mean_ r' = X_mean_ r /\ Y_mean_ r' = Y_mean_ r /\
+  loadings r' = loadings r /\
+  map (c_yload (F:=F)) (comps r') = map (c_yload (F:=F)) (comps r) /\
+  map (c_B (F:=F)) (comps r') = map (c_B (F:=F)) (comps r) /\
+  fitted_scores r' = map (pick Op n p) (fitted_scores r) /\
+  map (c_yscore (F:=F)) (comps r') = map (pick Op n p) (map (c_yscore (F:=F)) (comps r)) /\
+  (forall Xn : tensor F, fit_predict Op r' Xn = fit_predict Op r Xn).
+Proof. exact @plsr_perm_equivariance. Qed.
+Print Assumptions C19_plsr_perm_equivariance.
+
+(* ---- the iteration of CPRegressor.fit / TuckerRegressor.fit around the block updates (arbitrary `sweep`, norm and
+   stopping test): whatever the number of passes and wherever the loop stops, the stored weight_tensor_ is the
+   reconstruction of the exposed blocks and vec_W_ its vectorisation; fit is defined iff n_iter_max > 0 ---- *)
+Theorem C19_reg_fit_consistent : forall (F P : Type) (sweep : P -> P) (rebuild : P -> tensor F)
+  (nrm : tensor F -> F) (small : F -> F -> bool) (n_iter : nat) (w0 : P) (st : reg_stored),
+  reg_fit sweep rebuild nrm small n_iter w0 = Ok st ->
+  r_weight_tensor st = rebuild (r_blocks st) /\ r_vec st = tensor_to_vec (r_weight_tensor st).
+Proof. exact @reg_fit_consistent. Qed.
+Print Assumptions C19_reg_fit_consistent.
+
+Theorem C19_reg_fit_defined : forall (F P : Type) (sweep : P -> P) (rebuild : P -> tensor F)
+  (nrm : tensor F -> F) (small : F -> F -> bool) (n_iter : nat) (w0 : P),
+  0 < n_iter -> exists st : reg_stored, reg_fit sweep rebuild nrm small n_iter w0 = Ok st.
+Proof. exact @reg_fit_defined. Qed.
+Print Assumptions C19_reg_fit_defined.
+
+(* fit (any number of passes) followed by predict = contraction with the reconstruction of the exposed factors *)
+Theorem C19_cp_fit_predict : forall (F : Type) (Op : fops F)
+  (sweep : tensor F * list (tensor F) -> tensor F * list (tensor F)) (nrm : tensor F -> F) (small : F -> F -> bool)
+  (n_iter : nat) (w0 : tensor F * list (tensor F)) (st : reg_stored) (X : tensor F) (n : nat) (sx so : list nat),
+  reg_fit sweep (cp_rebuild Op) nrm small n_iter w0 = Ok st ->
+  wf X -> shape X = n :: sx -> sx <> [] -> factor_rows (snd (r_blocks st)) = sx ++ so -> 0 < n -> 0 < prod so ->
+  exists P, predict_cp Op (r_weight_tensor st) X = Ok P /\ shape P = n :: so /\
+    forall i o, i < n -> inb so o ->
+      tget Op P (i :: o) = fsum_idx Op sx (fun J => fmul Op (tget Op X (i :: J))
+        (fsumn Op (nth 0 (shape (fst (r_blocks st))) 0)
+               (fun r => fmul Op (tget Op (fst (r_blocks st)) [r]) (cp_coeff Op (snd (r_blocks st)) (J ++ o) r)))).
+Proof. exact @cp_fit_predict. Qed.
+Print Assumptions C19_cp_fit_predict.
+
+Theorem C19_tucker_fit_predict : forall (F : Type) (Op : fops F)
+  (sweep : tensor F * list (tensor F) -> tensor F * list (tensor F)) (nrm : tensor F -> F) (small : F -> F -> bool)
+  (n_iter : nat) (w0 : tensor F * list (tensor F)) (st : reg_stored) (X : tensor F) (n : nat) (sx : list nat),
+  reg_fit sweep (tucker_rebuild Op) nrm small n_iter w0 = Ok st ->
+  wf X -> shape X = n :: sx -> sx <> [] -> factor_rows (snd (r_blocks st)) = sx -> 0 < n ->
+  exists P, rbind (r_vec st) (fun v => predict_tucker Op v X) = Ok P /\ shape P = [n] /\
+    forall i, i < n ->
+      tget Op P [i] = fsum_idx Op sx (fun J => fmul Op (tget Op X (i :: J))
+        (fsum_idx Op (shape (fst (r_blocks st))) (fun K => fmul Op (tget Op (fst (r_blocks st)) K) (tk_coeff Op (snd (r_blocks st)) J K)))).
+Proof. exact @tucker_fit_predict. Qed.
+Print Assumptions C19_tucker_fit_predict.
+
 (* non-vacuity: Z is an instance; a 2-sample 2x2 problem with a vector-valued target *)
 Example C19_Z_is_ring : is_ring Zops.
 Proof. exact Zth. Qed.
@@ -149,3 +250,28 @@ Proof.
   - intros i Hi. destruct i as [|[|[|i]]]; simpl; lia.
   - split; vm_compute; reflexivity.
 Qed.
+
+(* non-vacuity of the fit_cp theorems: the hypotheses are satisfiable and the model computes.
+   Z instance (integer square root, a constant initialisation, a trivial solver): 3 samples of shape 2x2, 2 targets,
+   2 passes, 1 component; the permuted run has the same loadings and the re-ordered scores *)
+Example C19_perm_is_permutation : Permutation [2; 0; 1] (seq 0 3).
+Proof. simpl. apply Permutation_sym. apply (Permutation_cons_app [2] [1] 0). apply (Permutation_cons_app [2] [] 1). apply Permutation_refl. Qed.
+Example C19_fit_cp_nonvacuous :
+  let X := mk [3; 2; 2] [4; -1; 0; 2; -3; 5; 1; 1; 2; 0; -2; -6]%Z in
+  let Y := mk [3; 2] [1; 0; -2; 3; 4; -1]%Z in
+  let init := fun _ : tensor Z => [mk [2] [1; 0]%Z; mk [2] [0; 1]%Z] in
+  let fitZ := fit_cp Zops Z.sqrt init (fun _ b => b) 0%Z 2 1 in
+  let p := [2; 0; 1] in
+  shape X = 3 :: [2; 2] /\ shape Y = [3; 2] /\
+  length (comps (fitZ X Y)) = 1 /\
+  loadings (fitZ (perm_samples Zops p X) (perm_samples Zops p Y)) = loadings (fitZ X Y) /\
+  fitted_scores (fitZ (perm_samples Zops p X) (perm_samples Zops p Y)) = map (pick Zops 3 p) (fitted_scores (fitZ X Y)) /\
+  fitted_scores (fitZ X Y) <> [[0; 0; 0]%Z].
+Proof. cbv zeta. repeat split; try (vm_compute; reflexivity). vm_compute. discriminate. Qed.
+Example C19_unit_norm_nonvacuous : (0 < sumsq Rops (mk [2%nat] [3; 4]))%R.
+Proof. unfold sumsq, fsum_idx, BigSum.sum_idx. cbn. Lra.lra. Qed.
+(* the regressors' loop: one pass is enough for fit to be defined; zero passes is an error (the source raises) *)
+Example C19_reg_fit_nonvacuous :
+  (exists st, reg_fit (F:=Z) (fun w : nat => S w) (fun w => mk [1] [Z.of_nat w]) (fun _ => 0%Z) (fun _ _ => true) 5 0 = Ok st /\ r_blocks st = 3) /\
+  reg_fit (F:=Z) (fun w : nat => S w) (fun w => mk [1] [Z.of_nat w]) (fun _ => 0%Z) (fun _ _ => true) 0 0 = Err.
+Proof. split; [eexists; split; vm_compute; reflexivity | reflexivity]. Qed.
